@@ -54,6 +54,9 @@ pub enum Action {
     Gate(String),
     /// request: executed twice (duplicate delivery); only for client requests
     Duplicate,
+    /// request: the caller sees an error now, the message is delivered after the delay
+    /// (a stale replay that arrives behind newer messages); only for client requests
+    Late(u64),
 }
 
 pub trait Policy: Send + Sync + 'static {
@@ -70,6 +73,10 @@ pub struct SimInner {
     gates: parking_lot::Mutex<HashMap<String, Arc<tokio::sync::Semaphore>>>,
     pub log_enabled: AtomicBool,
     log: parking_lot::Mutex<Vec<(NetMsg, String)>>,
+    /// per proxy: (seq before the read, seq after the read, epoch reported right after a delivered
+    /// UMCTL SETCLUSTER); epoch u64::MAX marks a restart
+    pub epoch_trace: parking_lot::Mutex<HashMap<String, Vec<(u64, u64, u64)>>>,
+    pub trace_epochs: AtomicBool,
 }
 
 #[derive(Clone)]
@@ -124,6 +131,8 @@ impl SimNet {
                 gates: Default::default(),
                 log_enabled: AtomicBool::new(false),
                 log: Default::default(),
+                epoch_trace: Default::default(),
+                trace_epochs: AtomicBool::new(false),
             }),
         }
     }
@@ -270,7 +279,21 @@ impl SimNet {
             return Ok(r.execute(&argv));
         }
         if let Some(p) = self.proxy(dst) {
-            return Ok(p.cmd(argv).await);
+            let is_setcluster = self.inner.trace_epochs.load(Ordering::Relaxed)
+                && argv.len() > 2
+                && argv[0].eq_ignore_ascii_case(b"UMCTL")
+                && argv[1].eq_ignore_ascii_case(b"SETCLUSTER");
+            let reply = p.cmd(argv).await;
+            if is_setcluster {
+                let before = self.next_seq();
+                if let Resp::Integer(e) = p.cmd_str(&["UMCTL", "GETEPOCH"]).await {
+                    if let Ok(e) = String::from_utf8_lossy(&e).parse::<u64>() {
+                        let after = self.next_seq();
+                        self.inner.epoch_trace.lock().entry(dst.to_string()).or_default().push((before, after, e));
+                    }
+                }
+            }
+            return Ok(reply);
         }
         Err(RedisClientError::Io(std::io::Error::from(
             std::io::ErrorKind::ConnectionRefused,
@@ -309,6 +332,16 @@ impl SimClient {
         }
         if a == Action::Duplicate {
             let _ = self.net.dispatch(&self.dst, cmd.clone()).await;
+        }
+        if let Action::Late(ms) = a {
+            let net = self.net.clone();
+            let dst = self.dst.clone();
+            let cmd2 = cmd.clone();
+            tokio::spawn(async move {
+                tokio::time::sleep(Duration::from_millis(ms)).await;
+                let _ = net.dispatch(&dst, cmd2).await;
+            });
+            return Err(io_err());
         }
         let reply = self.net.dispatch(&self.dst, cmd.clone()).await?;
         let a = self
@@ -638,7 +671,11 @@ impl SimNet {
     /// Creates (or replaces = restart with empty state) the proxy at `addr`.
     pub fn add_proxy(&self, addr: &str, opts: &ProxyOpts) -> Arc<SimProxy> {
         let p = SimProxy::new(self, addr, opts);
-        self.inner.proxies.write().insert(addr.to_string(), p.clone());
+        let replaced = self.inner.proxies.write().insert(addr.to_string(), p.clone()).is_some();
+        if replaced {
+            let seq = self.next_seq();
+            self.inner.epoch_trace.lock().entry(addr.to_string()).or_default().push((seq, seq, u64::MAX));
+        }
         p
     }
 }
